@@ -15,7 +15,7 @@ import numpy as np
 
 from vf import pan, ref
 
-MAX_VOX = 40_000  # size gate for the python-set reference
+MAX_VOX = 400_000  # size gate for the python-set reference
 
 
 class State:
@@ -477,7 +477,8 @@ def _wrap_panoptic_evaluate(mod):
             "decision_metric": metric_name(dm) if dm is not None else None,
             "matcher": type(k.get("instance_matcher")).__name__ if k.get("instance_matcher") is not None else None,
         }
-        check_result_identities(res, n_pred, n_ref, metrics, feats, {"pred": pred, "ref": refa, "kind": kind})
+        check_result_identities(res, n_pred, n_ref, metrics, feats, {"pred": pred, "ref": refa, "kind": kind},
+                                decision=(metric_name(dm), k.get("decision_threshold")) if dm is not None else None)
         return out
 
     mod.panoptic_evaluate = wrapper
@@ -505,7 +506,7 @@ def independent_counts(kind, pred, refa, approximator, last_match):
 LIST_KEYS = {"IOU": "sq", "DSC": "sq_dsc", "ASSD": "sq_assd", "RVD": "sq_rvd", "clDSC": "sq_cldsc"}
 
 
-def check_result_identities(res, n_pred, n_ref, metrics, feats, det):
+def check_result_identities(res, n_pred, n_ref, metrics, feats, det, decision=None):
     ctx = S.ctx
     ctx.count("C02.checked")
     r = pan.read_result(res, metrics)
@@ -539,6 +540,16 @@ def check_result_identities(res, n_pred, n_ref, metrics, feats, det):
                 bad("sq_std_not_population_std_of_list", metric=m)
             if m in ("IOU", "DSC") and not all(0.0 <= x <= 1.0 for x in lst):
                 bad("overlap_score_outside_unit_interval", metric=m)
+    if decision is not None and decision[1] is not None and isinstance(r["lists"].get(decision[0]), list):
+        dmn, dth = decision
+        exact = dmn in ("IOU", "DSC", "RVD")
+        for v in r["lists"][dmn]:
+            if not exact and v != 0.0 and ref.near(v, dth):
+                continue
+            ctx.count("C02.decision_values_judged")
+            if not ref.meets(dmn, v, dth):
+                bad("instance_failing_decision_threshold_counted_as_true_positive", decision_metric=dmn, decision_threshold=dth, value=v)
+                break
     den = tp + fp / 2 + fn / 2
     if den > 0:
         if not pan.same(r["rq"], tp / den, abs_=1e-12):
